@@ -15,6 +15,26 @@ from sim import lib
 
 UTC = datetime.timezone.utc
 
+
+class NoOffset(datetime.tzinfo):
+    """A tzinfo whose utcoffset() is None: such a datetime is naive by
+    Python's definition although tzinfo is set."""
+
+    def utcoffset(self, dt):
+        return None
+
+    def dst(self, dt):
+        return None
+
+    def tzname(self, dt):
+        return None
+
+    def __repr__(self):
+        return 'NoOffset()'
+
+
+NO_OFFSET = NoOffset()
+
 # ---------------------------------------------------------------- descriptors
 
 
@@ -43,6 +63,8 @@ def to_desc(v):
         tz = v.tzinfo
         if tz is None:
             tzd = None
+        elif isinstance(tz, NoOffset):
+            tzd = {'no_offset': True}
         elif isinstance(tz, zoneinfo.ZoneInfo):
             tzd = {'zone': tz.key}
         else:
@@ -50,7 +72,12 @@ def to_desc(v):
         return {'dt': [v.year, v.month, v.day, v.hour, v.minute, v.second,
                        v.microsecond], 'tz': tzd, 'fold': v.fold}
     if t is time.struct_time:
-        return {'st': list(v)}
+        d = {'st': list(v)}
+        if getattr(v, 'tm_gmtoff', None) is not None or \
+                getattr(v, 'tm_zone', None) is not None:
+            d['zone'] = v.tm_zone
+            d['gmtoff'] = v.tm_gmtoff
+        return d
     raise TypeError('no descriptor for %r' % (t,))
 
 
@@ -77,6 +104,8 @@ def from_desc(d):
             tzd = d.get('tz')
             if tzd is None:
                 tz = None
+            elif isinstance(tzd, dict) and tzd.get('no_offset'):
+                tz = NO_OFFSET
             elif isinstance(tzd, dict):
                 tz = zoneinfo.ZoneInfo(tzd['zone'])
             else:
@@ -84,6 +113,9 @@ def from_desc(d):
             return datetime.datetime(*d['dt'], tzinfo=tz,
                                      fold=d.get('fold', 0))
         if 'st' in d:
+            if 'gmtoff' in d:   # the 11-field form localtime()/strptime give
+                return time.struct_time(tuple(d['st']) + (d.get('zone'),
+                                                          d['gmtoff']))
             return time.struct_time(tuple(d['st']))
         if 'rep' in d:  # repeated string / bytes, keeps replay files small
             unit = from_desc(d['rep'][0])
@@ -133,7 +165,7 @@ def canon_value(v):
     if t is tuple:
         return ['tuple', [canon_value(i) for i in v]]
     if t is datetime.datetime:
-        if v.tzinfo is None:
+        if v.tzinfo is None or v.utcoffset() is None:
             return ['T', 'naive', [v.year, v.month, v.day, v.hour, v.minute,
                                    v.second, v.microsecond]]
         delta = v - datetime.datetime(1970, 1, 1, tzinfo=UTC)
